@@ -423,6 +423,8 @@ def c03(tier):
     dp.re1(P, C)
     n = dp.cl1(P, C)
     dp.cl2(P, C)
+    # both call operators answer a rejected lookup with the same literal 0 (and nothing else precedes the lookup)
+    kb.sc123(P, C)
     # each path selects its basis kernels from the selector alone (every bit of the mask, every derivative order)
     dp.cl4(P, C)
     cw.cw5(P, C)
